@@ -27,6 +27,10 @@ pub enum Op {
     Advance { ns: u64 },
     /// every bonder claims, in the given rotation
     ClaimAll { rot: u8 },
+    /// the distributor's owner switches the distribution asset (to the second denom or back); later
+    /// inflows are in the asset configured at that time. The ledger rules are judged on the first asset
+    /// (uwhale) throughout: its remainders must still be rolled over exactly once.
+    SwitchDistributionAsset { second: bool },
 }
 
 #[derive(Clone, Debug, Serialize, Deserialize)]
@@ -47,6 +51,7 @@ fn op() -> BoxedStrategy<Op> {
         1 => (1u8..3).prop_map(|by| Op::IncreaseGrace { by }),
         2 => (0u64..DAY_NS).prop_map(|ns| Op::Advance { ns }),
         2 => (0u8..4).prop_map(|rot| Op::ClaimAll { rot }),
+        1 => proptest::bool::weighted(0.7).prop_map(|second| Op::SwitchDistributionAsset { second }),
     ]
     .boxed()
 }
@@ -60,6 +65,9 @@ struct EpochView {
     claimed: u128,
     has_available_entry: bool,
 }
+
+/// the second distribution asset (a bank denom every account of the world is funded with; not bondable)
+const SECOND_ASSET: &str = "amp";
 
 fn amount_of(v: &[white_whale_std::pool_network::asset::Asset]) -> u128 {
     v.iter()
@@ -81,7 +89,7 @@ fn read_epochs(bw: &BondWorld) -> Result<Vec<EpochView>, Fail> {
             .map_err(|e| Fail::new(format!("Epoch query failed: {e}")))?;
         for list in [&e.epoch.total, &e.epoch.available, &e.epoch.claimed] {
             for a in list.iter() {
-                if a.info != native("uwhale") {
+                if a.info != native("uwhale") && a.info != native(SECOND_ASSET) {
                     return Err(Fail::new(format!("epoch {id} carries a foreign asset {}", a.info)));
                 }
             }
@@ -133,6 +141,7 @@ impl Check for DistributorHistory {
         let mut stint: [Option<u64>; 4] = [None; 4];
         let mut paid: BTreeSet<(usize, u64)> = BTreeSet::new();
         let mut rolled: BTreeSet<u64> = BTreeSet::new();
+        let mut cur_asset: &str = "uwhale";
         let mut frozen: BTreeMap<u64, EpochView> = BTreeMap::new();
         let mut expired_with_remainder = 0;
         let mut claimers: BTreeSet<usize> = BTreeSet::new();
@@ -162,7 +171,34 @@ impl Check for DistributorHistory {
                 Op::Inflow { amount } => {
                     let owner = bw.w.owner.clone();
                     let col = bw.collector.clone();
-                    let _ = bw.w.transfer(&owner, &col, &native("uwhale"), amount.u128());
+                    let _ = bw.w.transfer(&owner, &col, &native(cur_asset), amount.u128());
+                    if cur_asset != "uwhale" {
+                        rec.class("inflow_in_second_distribution_asset");
+                    }
+                }
+                Op::SwitchDistributionAsset { second } => {
+                    let owner = bw.w.owner.clone();
+                    let d = bw.dist.clone();
+                    let want = if *second { SECOND_ASSET } else { "uwhale" };
+                    let r = bw.w.exec(
+                        &owner,
+                        &d,
+                        &fd::ExecuteMsg::UpdateConfig {
+                            owner: None,
+                            bonding_contract_addr: None,
+                            fee_collector_addr: None,
+                            grace_period: None,
+                            distribution_asset: Some(native(want)),
+                            epoch_config: None,
+                        },
+                        &[],
+                    );
+                    if r.is_ok() {
+                        // read back what is configured now
+                        let cfg: fd::Config = bw.w.query(&d, &fd::QueryMsg::Config {}).map_err(|e| Fail::unobservable(format!("distributor Config query: {e}")))?;
+                        cur_asset = if cfg.distribution_asset == native(SECOND_ASSET) { SECOND_ASSET } else { "uwhale" };
+                        rec.class("distribution_asset_switched");
+                    }
                 }
                 Op::Claim { user } => ops_claims.push((*user % 4) as usize),
                 Op::ClaimAll { rot } => {
